@@ -125,11 +125,77 @@ func C13(c *Ctx) int {
 			c.Extra["arming_race_runs"] = len(rj.Timer)
 		}
 	}
+	c.timerCatchPart(fs)
 	if len(scheds) > 0 {
 		c.Samples = append(c.Samples, map[string]any{"definition": defs[scheds[len(scheds)/2].Def], "clock_history": scheds[len(scheds)/2].Steps})
 	}
 	c.Extra["definitions"] = len(defs)
-	return c.Finish("model_checking", "Timer.tla (date / duration / Rn cycle with and without start and end, n in 0..3 and unbounded) model-checked over all clock-advance histories from a grid around the due times (before, exactly at, far beyond) with cancellation at every step; every history exported by TLC and replayed on the real timer against the mock clock (quiescent stepping guided by the model's expected firings); the recorded runs are validated by TimerTrace (never early, exact counts, spacing, end bound, silence after close / cancel)", true, fs)
+	return c.Finish("model_checking", "Timer.tla (date / duration / Rn cycle with and without start and end, n in 0..3 and unbounded) model-checked over all clock-advance histories from a grid around the due times (before, exactly at, far beyond) with cancellation at every step; every history exported by TLC and replayed on the real timer against the mock clock (quiescent stepping guided by the model's expected firings); the recorded runs are validated by TimerTrace (never early, exact counts, spacing, end bound, silence after close / cancel); engine clause: TimerCatch.tla enumerates histories {create, arm, advance} of 1..2 instances of one definitions document built through one event-definition-instance builder, each replayed on the real engine (the timer catch event continues exactly once per firing it was listening for, never before the instance's own due time)", true, fs)
+}
+
+// timerCatchPart: the engine clause of C13.  TimerCatch.tla enumerates histories of 1..2 instances
+// of one definitions document (built through one event-definition-instance builder, one mock
+// clock) over {create, arm, advance}; every history is replayed on the real engine and the
+// continuations of each instance's timer catch event are compared after every step.
+func (c *Ctx) timerCatchPart(fs []Finding) {
+	dir := c.sub("timercatch")
+	out := filepath.Join(dir, "beh.ndjson")
+	maxOps := 5
+	if !c.Quick() {
+		maxOps = 6
+	}
+	cfg := fmt.Sprintf("SPECIFICATION Spec\nCONSTANTS\n  OutFile = %q\n  MaxOps = %d\n  Insts = {1, 2}\n  Kinds = {\"duration\", \"date\"}\n  D = 60\n  Steps = {40, 60, 100}\nINVARIANTS NeverEarly AtMostOnce ListenedThenFired OwnTimer\nCONSTRAINT Record\nPOSTCONDITION Dump\nCHECK_DEADLOCK FALSE\n", out, maxOps)
+	res, err := RunTLC(dir, "TimerCatch", cfg, TLCOpts{Workers: 1, Timeout: 10 * time.Minute})
+	if err != nil {
+		c.Infraf("TimerCatch.tla: %v", err)
+		return
+	}
+	if res.Violated != "" {
+		c.Infraf("TimerCatch.tla violates %s (spec-level)", res.Violated)
+		return
+	}
+	c.States += res.Distinct
+	c.Transitions += res.Generated
+	job := &Job{Opts: JobOpts{Mode: "timercatch", Seed: c.Seed, TMs: 3000}}
+	n := 0
+	ReadNDJSON(out, func(line []byte) error {
+		var b drive.TimerCatchBehaviour
+		if err := json.Unmarshal(line, &b); err != nil {
+			return err
+		}
+		n++
+		if c.Quick() && n%3 != int(c.Seed)%3 {
+			return nil
+		}
+		job.TimerCatch = append(job.TimerCatch, b)
+		job.Schedules = append(job.Schedules, drive.Schedule{})
+		return nil
+	})
+	c.Extra["timer_catch_histories"] = n
+	raw, err := ReplayAllRaw(c.sub("timercatch-runs"), job, c.Workers)
+	if err != nil {
+		c.Infraf("timer catch runs: %v", err)
+	}
+	idx := make([]int, 0, len(raw))
+	for r := range raw {
+		idx = append(idx, r)
+	}
+	sort.Ints(idx)
+	for _, r := range idx {
+		rl := raw[r]
+		c.Evaluations++
+		if rl.Crash != "" {
+			c.Reject(fs, Rejection{Prop: "C13", Tags: []string{"timer", "timer-catch"}, Ev: "crash", Detail: rl.Crash}, map[string]any{"history": job.TimerCatch[r]})
+			continue
+		}
+		if rl.VRes == nil {
+			continue
+		}
+		c.TracesValidated++
+		for _, m := range rl.VRes.Mismatches {
+			c.Reject(fs, Rejection{Prop: "C13", Tags: []string{"timer", "timer-catch"}, Ev: "mismatch", Detail: m}, map[string]any{"history": job.TimerCatch[r], "mismatch": m})
+		}
+	}
 }
 
 func (c *Ctx) validateTimerRuns(fs []Finding, dir, defFile, grid string, maxAdv int, raw map[int]RunLog, job *Job, confirm bool) {
